@@ -34,7 +34,8 @@ def judge_records(ctx, dec, rinsts, origin, note="", skip_branches=False):
             ok = (d[2] == want) if specified else (len(d[2]) == max(1, len(ri.ops_att)))
             if not ok:
                 pr = ri.prefix_as_mnemonic()
-                key = "prefixed_instruction_operands_lost" if pr is not None and d[1] == pr[0] and list(d[2]) == [pr[1]] else None
+                # the token after the prefix goes through the operand normaliser: `(bad)` comes out as `[bad]`
+                key = "prefixed_instruction_operands_lost" if pr is not None and d[1] == pr[0] and list(d[2]) in ([pr[1]], ["[" + pr[1][1:-1] + "]"] if pr[1].startswith("(") else [pr[1]]) else None
                 ctx.disagreement({"origin": origin, "listing": ri.raw + "\n"},
                                  f"{note}operands {list(d[2])} (mnemonic {d[1]!r}) for the prefixed line {ri.raw!r}; its operands are {list(want) if specified else ri.ops_att}", key)
             continue
@@ -120,6 +121,13 @@ def run_shard(ctx):
             ctx.inconc("as refused a template batch")
         else:
             judge_listing(ctx, ws, r[1], f"as{bits}" if ctx.rng.random() < 0.85 else f"as{bits}-crlf")
+        # disassembly of random / biased bytes: encodings a compiler rarely emits (%riz/%eiz pseudo index, redundant SIB forms, x87, far operands)
+        if b % 2 == 0:
+            blob, secs, bits2 = objd.random_object(ctx.rng, size=(200, 1200))
+            rc, out, _ = objd.disassemble(ws.write("o.bin", blob))
+            if rc == 0:
+                ctx.event("random_object_listings_judged")
+                judge_listing(ctx, ws, out, f"elf{bits2}")
         # S-syn stratum: operand mixes `as` would refuse
         insts = L.gen_listing(ctx.rng, 40)
         # spellings a hand-edited or foreign listing may carry: the normal form keeps an immediate's text as it stands
